@@ -389,7 +389,14 @@ def check_calculate_all(ctx: Ctx):
     configure None, so sq*rq raises TypeError)."""
     prog = ctx.prog
     f = prog.func("panoptica_result:PanopticaResult.calculate_all")
-    tries = [n for n in walk_no_nested(f.node) if isinstance(n, ast.Try)]
+    # the metric access may sit in a helper method that calculate_all calls on self
+    funcs = [f]
+    for c in prog.calls_in(f):
+        if isinstance(c.func, ast.Attribute) and isinstance(c.func.value, ast.Name) and c.func.value.id == "self" and f.cls is not None:
+            m = f.cls.lookup(c.func.attr)
+            if m is not None and m not in funcs:
+                funcs.append(m)
+    tries = [n for g in funcs for n in walk_no_nested(g.node) if isinstance(n, ast.Try)]
     ok = False
     detail = None
     for t in tries:
